@@ -277,99 +277,7 @@ func checkC10(p *core.Program, r *core.Report) {
 	r.Floor(R1, 4)
 
 	// R2 / R3
-	unreg := p.Method("hub", "Hub", "UnregisterRemoteSKI")
-	cancel := p.Method("hub", "Hub", "CancelPairingWithSKI")
-	fCounter := p.Field("hub", "Hub", "connectionAttemptCounter")
-	fConns := p.Field("hub", "Hub", "connections")
-	cNone := p.Const("api", "ConnectionStateNone")
-	if unreg == nil || cancel == nil || fCounter == nil || fConns == nil || cNone == nil {
-		r.Unresolved(R2, "UnregisterRemoteSKI / CancelPairingWithSKI / connectionAttemptCounter / connections / ConnectionStateNone")
-		return
-	}
-	isSetTrustedFalse := func(in ssa.Instruction) bool {
-		c := core.Common(in)
-		return c != nil && core.CallsMethodNamed(in, apiPath, "ServiceDetails", "SetTrusted") && len(c.Args) == 2 && isBoolConst(c.Args[1], false)
-	}
-	isStateNone := func(in ssa.Instruction) bool {
-		c := core.Common(in)
-		if c == nil || !core.CallsMethodNamed(in, apiPath, "ConnectionStateDetail", "SetState") || len(c.Args) != 2 {
-			return false
-		}
-		k := core.ConstOf(c.Args[1])
-		return k != nil && constant.Compare(k, token.EQL, cNone.Val())
-	}
-	delCounter := core.NewMust(p, 3, func(in ssa.Instruction) bool {
-		if !isBuiltin(in, "delete") {
-			return false
-		}
-		f, _ := core.LoadedField(core.Common(in).Args[0])
-		return f == fCounter
-	})
-	connNilEdge := func(fn *ssa.Function) core.EdgeFilter {
-		return func(b *ssa.BasicBlock, idx int) bool {
-			i := core.BlockIf(b)
-			if i == nil {
-				return false
-			}
-			v, truth := core.Truth(i.Cond, idx)
-			bo, ok := v.(*ssa.BinOp)
-			if !ok || (bo.Op != token.EQL && bo.Op != token.NEQ) {
-				return false
-			}
-			var other ssa.Value
-			if core.IsNilConst(bo.Y) {
-				other = bo.X
-			} else if core.IsNilConst(bo.X) {
-				other = bo.Y
-			} else {
-				return false
-			}
-			if !core.TypeIs(other.Type(), apiPath, "ShipConnectionInterface") {
-				return false
-			}
-			return truth == (bo.Op == token.EQL) // edge asserts connection == nil
-		}
-	}
-	effects := func(fn *ssa.Function, rule string, connMethod string) {
-		name := fn.Name()
-		type ob struct {
-			what string
-			pred func(ssa.Instruction) bool
-			msg  string
-		}
-		obs := []ob{
-			{"clears-trust", isSetTrustedFalse, "does not clear the trusted flag on every path: the SKI stays trusted and gets dialled / accepted again"},
-			{"resets-pairing-state", isStateNone, "does not reset the pairing state to None on every path: a queued state keeps the dial gate open"},
-			{"removes-attempt-counter", delCounter.Instr, "does not remove the connection attempt counter on every path: a pending delayed attempt still matches its counter and dials"},
-		}
-		for _, o := range obs {
-			key := "hub.Hub." + name + " " + o.what
-			if bad := core.MustPass(fn, nil, o.pred, nil); bad != nil {
-				r.Fail(rule, key, p.Pos(bad.Pos()), name+" "+o.msg)
-			} else {
-				r.OK(rule, key, p.Pos(fn.Pos()), "on all paths")
-			}
-		}
-		key := "hub.Hub." + name + " existing-connection " + connMethod
-		m := p.IfaceMethod("api", "ShipConnectionInterface", connMethod)
-		pred := func(in ssa.Instruction) bool {
-			if !core.IsInvokeOf(in, m) {
-				return false
-			}
-			// receiver derives from the registry
-			recv := core.Common(in).Value
-			ok := false
-			walkLookup(p, recv, fConns, 3, &ok)
-			return ok
-		}
-		if bad := core.MustPass(fn, nil, pred, connNilEdge(fn)); bad != nil {
-			r.Fail(rule, key, p.Pos(bad.Pos()), name+" does not call "+connMethod+" on the registered connection on every path where one exists")
-		} else {
-			r.OK(rule, key, p.Pos(fn.Pos()), "whenever a connection is registered for the SKI")
-		}
-	}
-	effects(unreg, R2, "CloseConnection")
-	effects(cancel, R3, "AbortPendingHandshake")
+	checkRevocation(p, r, R2, R3)
 	checkAbortEntry(p, r, R3)
 	// R4
 	sg := a.shutdownGate(r, R4)
@@ -618,4 +526,106 @@ func checkRegisterTrust(p *core.Program, r *core.Report, rule string) {
 	} else {
 		r.OK(rule, key, p.Pos(reg.Pos()), "SetTrusted(true) on all paths")
 	}
+}
+
+// checkRevocation: what unregistering a SKI (ruleUnreg) and cancelling a pairing (ruleCancel) do on every path:
+// clear trust, reset the stored pairing state to None, forget the attempt counter, and end / abort the
+// registered connection. Shared by C10 (R2/R3) and C01 (R5: no trust is left behind a user's revocation).
+func checkRevocation(p *core.Program, r *core.Report, R2, R3 string) {
+	unreg := p.Method("hub", "Hub", "UnregisterRemoteSKI")
+	cancel := p.Method("hub", "Hub", "CancelPairingWithSKI")
+	fCounter := p.Field("hub", "Hub", "connectionAttemptCounter")
+	fConns := p.Field("hub", "Hub", "connections")
+	cNone := p.Const("api", "ConnectionStateNone")
+	if unreg == nil || cancel == nil || fCounter == nil || fConns == nil || cNone == nil {
+		r.Unresolved(R2, "UnregisterRemoteSKI / CancelPairingWithSKI / connectionAttemptCounter / connections / ConnectionStateNone")
+		return
+	}
+	isSetTrustedFalse := func(in ssa.Instruction) bool {
+		c := core.Common(in)
+		return c != nil && core.CallsMethodNamed(in, apiPath, "ServiceDetails", "SetTrusted") && len(c.Args) == 2 && isBoolConst(c.Args[1], false)
+	}
+	isStateNone := func(in ssa.Instruction) bool {
+		c := core.Common(in)
+		if c == nil || !core.CallsMethodNamed(in, apiPath, "ConnectionStateDetail", "SetState") || len(c.Args) != 2 {
+			return false
+		}
+		k := core.ConstOf(c.Args[1])
+		return k != nil && constant.Compare(k, token.EQL, cNone.Val())
+	}
+	delCounter := core.NewMust(p, 3, func(in ssa.Instruction) bool {
+		if !isBuiltin(in, "delete") {
+			return false
+		}
+		f, _ := core.LoadedField(core.Common(in).Args[0])
+		return f == fCounter
+	})
+	connNilEdge := func(fn *ssa.Function) core.EdgeFilter {
+		return func(b *ssa.BasicBlock, idx int) bool {
+			i := core.BlockIf(b)
+			if i == nil {
+				return false
+			}
+			v, truth := core.Truth(i.Cond, idx)
+			bo, ok := v.(*ssa.BinOp)
+			if !ok || (bo.Op != token.EQL && bo.Op != token.NEQ) {
+				return false
+			}
+			var other ssa.Value
+			if core.IsNilConst(bo.Y) {
+				other = bo.X
+			} else if core.IsNilConst(bo.X) {
+				other = bo.Y
+			} else {
+				return false
+			}
+			if !core.TypeIs(other.Type(), apiPath, "ShipConnectionInterface") {
+				return false
+			}
+			return truth == (bo.Op == token.EQL) // edge asserts connection == nil
+		}
+	}
+	effects := func(fn *ssa.Function, rule string, connMethod string) {
+		name := fn.Name()
+		type ob struct {
+			what string
+			pred func(ssa.Instruction) bool
+			msg  string
+		}
+		obs := []ob{
+			{"clears-trust", isSetTrustedFalse, "does not clear the trusted flag on every path: the SKI stays trusted and gets dialled / accepted again"},
+			{"resets-pairing-state", isStateNone, "does not reset the pairing state to None on every path: a queued state keeps the dial gate open"},
+			{"removes-attempt-counter", delCounter.Instr, "does not remove the connection attempt counter on every path: a pending delayed attempt still matches its counter and dials"},
+		}
+		for _, o := range obs {
+			key := "hub.Hub." + name + " " + o.what
+			mo := core.NewMust(p, 2, o.pred)
+			if bad := core.MustPass(fn, nil, mo.Instr, nil); bad != nil {
+				r.Fail(rule, key, p.Pos(bad.Pos()), name+" "+o.msg)
+			} else {
+				r.OK(rule, key, p.Pos(fn.Pos()), "on all paths")
+			}
+		}
+		key := "hub.Hub." + name + " existing-connection " + connMethod
+		m := p.IfaceMethod("api", "ShipConnectionInterface", connMethod)
+		pred := func(in ssa.Instruction) bool {
+			if !core.IsInvokeOf(in, m) {
+				return false
+			}
+			// receiver derives from the registry
+			recv := core.Common(in).Value
+			ok := false
+			walkLookup(p, recv, fConns, 3, &ok)
+			return ok
+		}
+		mustConn := core.NewMust(p, 2, pred)
+		mustConn.Removed = connNilEdge(fn)
+		if bad := core.MustPass(fn, nil, mustConn.Instr, connNilEdge(fn)); bad != nil {
+			r.Fail(rule, key, p.Pos(bad.Pos()), name+" does not call "+connMethod+" on the registered connection on every path where one exists")
+		} else {
+			r.OK(rule, key, p.Pos(fn.Pos()), "whenever a connection is registered for the SKI")
+		}
+	}
+	effects(unreg, R2, "CloseConnection")
+	effects(cancel, R3, "AbortPendingHandshake")
 }
